@@ -50,7 +50,9 @@ type Conn struct {
 	writes        []Write
 	nWrites       int
 	failWriteOn   int // 1-based; 0 = never
+	failNext      bool
 	stalled       bool
+	expired       bool // stalled writes fail with a timeout now, whatever the clock says
 	writeDeadline time.Time
 	writeDelay    time.Duration // latency of every write
 
@@ -109,10 +111,32 @@ func (c *Conn) FailWriteOn(n int) {
 	c.mu.Unlock()
 }
 
+// FailNextWrite makes the next write to complete (one that is blocked on a
+// stalled peer right now, or else the next call) fail.
+func (c *Conn) FailNextWrite() {
+	c.mu.Lock()
+	c.failNext = true
+	c.mu.Unlock()
+	c.cond.Broadcast()
+}
+
 // Stall: the peer stops reading; writes block until their deadline.
 func (c *Conn) Stall(on bool) {
 	c.mu.Lock()
 	c.stalled = on
+	c.mu.Unlock()
+	c.cond.Broadcast()
+}
+
+// ExpireWrites makes every write that is (or will be) blocked on a stalled
+// peer fail with a timeout error, as if its deadline had passed. Scripts use
+// it instead of letting virtual time run to the deadline: while a sender waits
+// for the write, other goroutines may queue on a library mutex, and a
+// goroutine queued on a mutex is not durably blocked, so the bubble's clock
+// would never reach the deadline.
+func (c *Conn) ExpireWrites() {
+	c.mu.Lock()
+	c.expired = true
 	c.mu.Unlock()
 	c.cond.Broadcast()
 }
@@ -213,8 +237,15 @@ func (c *Conn) Write(p []byte) (int, error) {
 			}
 			return 0, net.ErrClosed
 		}
+		if c.failNext {
+			c.failNext = false
+			return 0, &net.OpError{Op: "write", Net: "netsim", Err: ErrInjectedWrite}
+		}
 		if !c.stalled {
 			break
+		}
+		if c.expired {
+			return 0, &net.OpError{Op: "write", Net: "netsim", Err: ErrTimeout}
 		}
 		if !c.writeDeadline.IsZero() && !time.Now().Before(c.writeDeadline) {
 			return 0, &net.OpError{Op: "write", Net: "netsim", Err: ErrTimeout}
